@@ -270,7 +270,7 @@ int main(int argc, char** argv) {
     if (space == "longtext") {
         // Range content operations on one long Text node: lengths and offsets around the 4000-character stack buffers of
         // DOMRangeImpl::traverseTextNode.  doc -> r -> [t(len L), e]; range A = (t,o)-(r,2), range B = (r,0)-(t,o); operation in
-        // {cloneContents, extractContents, deleteContents}; expected strings by substring arithmetic.
+        // {cloneContents, extractContents, deleteContents, toString}; range C = (t,o)-(t,L); expected strings by substring arithmetic.
         static const size_t LENS[] = {10, 3998, 3999, 4000, 4001, 7999, 8001, 12000};
         static const int NL = sizeof(LENS) / sizeof(LENS[0]);
         struct LT {
@@ -281,11 +281,11 @@ int main(int argc, char** argv) {
             }
         };
         static std::vector<std::array<size_t, 4>> CASES;   // len index, offset, side, op
-        for (int li = 0; li < NL; li++) for (size_t o : LT::offs(LENS[li])) for (size_t side = 0; side < 2; side++) for (size_t op = 0; op < 3; op++) CASES.push_back({(size_t)li, o, side, op});
+        for (int li = 0; li < NL; li++) for (size_t o : LT::offs(LENS[li])) for (size_t side = 0; side < 3; side++) for (size_t op = 0; op < 4; op++) CASES.push_back({(size_t)li, o, side, op});
         Runner R; R.name = space; R.total = CASES.size();
         R.fn = [](uint64_t i, Ctx& c) {
             auto cs = CASES[i];
-            size_t L = LENS[cs[0]], o = cs[1]; bool left = cs[2] == 0; int op = (int)cs[3];
+            size_t L = LENS[cs[0]], o = cs[1]; bool left = cs[2] != 1, same = cs[2] == 2; int op = (int)cs[3];   // side 2: both boundary points in the text node, (t,o)-(t,L)
             std::u16string txt; for (size_t k = 0; k < L; k++) txt += (char16_t)(u'a' + (k % 23));
             static const XMLCh ls[] = {'L', 'S', 0};
             DOMImplementation* impl = DOMImplementationRegistry::getDOMImplementation(ls);
@@ -296,16 +296,20 @@ int main(int argc, char** argv) {
             DOMElement* e = d->createElement(eN);
             if (left) { r->appendChild(t); r->appendChild(e); } else { r->appendChild(e); r->appendChild(t); }
             DOMRange* rg = d->createRange();
-            if (left) { rg->setStart(t, o); rg->setEnd(r, 2); } else { rg->setStart(r, 0); rg->setEnd(t, o); }
+            if (same) { rg->setStart(t, o); rg->setEnd(t, L); } else if (left) { rg->setStart(t, o); rg->setEnd(r, 2); } else { rg->setStart(r, 0); rg->setEnd(t, o); }
             std::u16string sel = left ? txt.substr(o) : txt.substr(0, o), rest = left ? txt.substr(0, o) : txt.substr(o);
-            std::string where = "\"len\":" + std::to_string(L) + ",\"offset\":" + std::to_string(o) + ",\"side\":" + (left ? "\"start-in-text\"" : "\"end-in-text\"") + ",\"op\":" + std::to_string(op);
+            std::string where = "\"len\":" + std::to_string(L) + ",\"offset\":" + std::to_string(o) + ",\"side\":" + (same ? "\"both-in-text\"" : left ? "\"start-in-text\"" : "\"end-in-text\"") + ",\"op\":" + std::to_string(op);
             DOMDocumentFragment* f = nullptr;
-            if (op == 0) f = rg->cloneContents(); else if (op == 1) f = rg->extractContents(); else rg->deleteContents();
+            if (op == 3) {
+                std::u16string str = (const char16_t*)rg->toString();
+                if (str != sel) c.violation("longtext-toString", where + ",\"problem\":\"toString has length " + std::to_string(str.size()) + " expected " + std::to_string(sel.size()) + "\"");
+            }
+            else if (op == 0) f = rg->cloneContents(); else if (op == 1) f = rg->extractContents(); else rg->deleteContents();
             std::u16string after = (const char16_t*)t->getData();
-            if (after != (op == 0 ? txt : rest)) c.violation("longtext-source-node", where + ",\"problem\":\"text left in the tree has length " + std::to_string(after.size()) + "\"");
+            if (after != (op == 0 || op == 3 ? txt : rest)) c.violation("longtext-source-node", where + ",\"problem\":\"text left in the tree has length " + std::to_string(after.size()) + "\"");
             if (f) {
                 DOMNode* k = left ? f->getFirstChild() : f->getLastChild();
-                std::u16string got = k && k->getNodeType() == DOMNode::TEXT_NODE ? std::u16string((const char16_t*)k->getNodeValue()) : u"<no text node>";
+                std::u16string got = k && k->getNodeType() == DOMNode::TEXT_NODE ? std::u16string((const char16_t*)k->getNodeValue()) : (!k && sel.empty()) ? u"" : u"<no text node>";   // a collapsed range gives an empty fragment
                 if (got != sel) c.violation("longtext-fragment", where + ",\"problem\":\"fragment text has length " + std::to_string(got.size()) + " expected " + std::to_string(sel.size()) + "\"");
                 c.count("fragments_compared");
             }
